@@ -316,7 +316,7 @@ def run(ctx, rep):
               "_retry_count written only in __init__ and retry()", None, None,
               str([f2.qual for f2, s in writers]))
     wm = [(f2.qual) for f2, s, t, kind in all_stores(prog, "_max_retries")]
-    rep.check(wm == ["BaseOrderPackage.__init__"], "R4", "_max_retries written only in __init__", None, None, str(wm))
+    rep.check(set(wm) == {"BaseOrderPackage.__init__"}, "R4", "_max_retries written only in __init__", None, None, str(wm))
     eh = prog.own_method("BetfairExecution", "_execution_helper")
     cfg = ctx.cfg(eh)
     hcalls = node_calls(cfg, "handler")
